@@ -8,7 +8,9 @@ internal_tile_coord, external_tile_coord and tile_sets (C02.d); the addressing e
 TMS / WMTS / WMS-C capabilities templates are grid-derived and axis-correct (C02.e); the unit
 constants behind scale denominators are defined consistently (C02.f).
 Added in round 4: a tile put together from tiles of another level keeps every tile at its own grid
-slot (C02.k, shared C01.f)."""
+slot (C02.k, shared C01.f).
+Added in round 6: the bbox and the cutting pattern of a meta tile describe the same block (C02.l,
+shared C04.l)."""
 import ast
 import math
 import re
